@@ -198,7 +198,8 @@ def finish(mod, pid, tier, seed, merged, wall):
             kf_counts[v["sig"]] += 1
         else:
             new.append(v)
-    os.makedirs(os.path.join(VERIF, "evidence", "replays"), exist_ok=True)
+    evdir = os.environ.get("HV_EVIDENCE_DIR") or os.path.join(VERIF, "evidence")  # redirected by the mutant self-test only
+    os.makedirs(os.path.join(evdir, "replays"), exist_ok=True)
     lines = []
     seen_sig = Counter()
     replay_paths = []
@@ -206,7 +207,7 @@ def finish(mod, pid, tier, seed, merged, wall):
         seen_sig[v["sig"]] += 1
         if seen_sig[v["sig"]] > 3:
             continue
-        rp = os.path.join("evidence", "replays", "%s-%s-%s.json" % (pid, v["case_hash"], v.get("backend", "x")))
+        rp = os.path.join(os.path.relpath(evdir, VERIF), "replays", "%s-%s-%s.json" % (pid, v["case_hash"], v.get("backend", "x")))
         with open(os.path.join(VERIF, rp), "w") as f:
             json.dump({"property": pid, "sig": v["sig"], "clause": v["clause"], "backend": v.get("backend"),
                        "detail": v["detail"], "case": v["case"], "seed": seed, "tier": tier}, f, indent=1)
@@ -250,7 +251,7 @@ def finish(mod, pid, tier, seed, merged, wall):
         "assumptions": list(getattr(mod, "ASSUMPTIONS", [])), "wall_s": round(wall, 2),
         "violations": len(new),
     }
-    with open(os.path.join(VERIF, "evidence", "%s.json" % pid), "w") as f:
+    with open(os.path.join(evdir, "%s.json" % pid), "w") as f:
         json.dump(ev, f, indent=1, sort_keys=True)
     print("%s tier=%s seed=%d cases=%d evaluations=%d distinct_nontrivial=%d wall=%.1fs status=%s" % (
         pid, tier, seed, merged["cases"], merged["evaluations"], len(merged["nontrivial"]), wall, status))
